@@ -81,6 +81,22 @@ pub open spec fn branch_target(c: Code) -> Option<Seq<char>> {
     }
 }
 
+/// instructions that transfer control (their data effect under `run` is the fall-through one)
+pub open spec fn is_control(c: Code) -> bool {
+    match c {
+        Code::JAL(_, _) => true,
+        Code::JALR(_, _, _) => true,
+        Code::BEQ(_, _, _) => true,
+        Code::BNE(_, _, _) => true,
+        Code::BLT(_, _, _) => true,
+        Code::BLE(_, _, _) => true,
+        Code::BGT(_, _, _) => true,
+        Code::BGE(_, _, _) => true,
+        Code::LAB(_) => true,
+        _ => false,
+    }
+}
+
 pub open spec fn reg_ok(r: Register) -> bool { r.0 < 32 }
 
 /// register numbers in range; a jump must not link (rd = x0)
@@ -189,3 +205,16 @@ pub open spec fn jumps_to(c: Code, s: St, target: u64) -> bool {
 }
 
 pub open spec fn is_fixed_jump(c: Code) -> bool { c is JAL }
+
+/// extensional equality of machine states; `lemma_st_eq` turns it into `==`
+pub open spec fn st_eq(a: St, b: St) -> bool {
+    tot_eq(a.regs, b.regs) && tot_eq(a.mem, b.mem) && a.ok == b.ok
+}
+
+pub broadcast proof fn lemma_st_eq(a: St, b: St)
+    requires #[trigger] st_eq(a, b),
+    ensures a == b,
+{
+    lemma_tot_eq(a.regs, b.regs);
+    lemma_tot_eq(a.mem, b.mem);
+}
